@@ -217,8 +217,8 @@ const mvh_class wl_tls = { "tls", T_NP, tls_names, tls_gen, tls_run, tls_stats, 
 /* ================================================================== */
 /* dtor (C11)                                                          */
 /* ================================================================== */
-enum { D_SPAN = Q_COMMON, D_NUSED, D_NTHREADS, D_DTOR_PM, D_SET_PM, D_NULL_PM, D_EXITMODE, D_NP };
-static const char *const dtor_names[] = { COMMON_NAMES, "span", "nused", "nthreads", "dtor_pm", "set_pm", "null_pm", "exitmode" };
+enum { D_SPAN = Q_COMMON, D_NUSED, D_NTHREADS, D_DTOR_PM, D_SET_PM, D_NULL_PM, D_EXITMODE, D_CHURN, D_NP };
+static const char *const dtor_names[] = { COMMON_NAMES, "span", "nused", "nthreads", "dtor_pm", "set_pm", "null_pm", "exitmode", "churners" };
 
 #define NDF 4
 static int key_df[NKEYS];          /* destructor function index (+1) registered for key k, 0 = none */
@@ -260,11 +260,29 @@ static void dtor_gen(mvsim_rng *r, long *p, int tier) {
   p[D_NULL_PM] = mvh_chance(r, 300) ? 300 : 0;
   p[D_EXITMODE] = mvh_range(r, 0, 3);   /* 0 return, 1 myth_exit, 2 cancel, 3 mixed */
   gen_common(r, p, p[D_NTHREADS]);
+  /* threads that create and delete other keys (with a destructor) while the keys under test are being created */
+  p[D_CHURN] = mvh_chance(r, 400) ? mvh_range(r, 1, 3) : 0;
 }
 static __attribute__((noinline)) void nested_exit2(int d, void *v) {
   volatile char pad[32]; pad[0] = (char)d;
   if (d > 0) nested_exit2(d - 1, v); else myth_exit(v);
   pad[1] = 0;
+}
+static void churn_dtor(void *v) { MVH_CHECK(v == 0, "C11-FOREIGN", "destructor of a key that never held a value was called with %p", v); }
+static volatile int churn_stop;
+static void *churner(void *arg) {
+  long t = (long)arg;
+  for (long i = 0; i < 400 && !churn_stop; i++) {
+    myth_key_t k = -1;
+    int rc = myth_key_create(&k, churn_dtor);
+    if (rc == 0) {          /* may legitimately fail when all 1024 indices are taken */
+      MVH_CHECK(k >= 0 && k < NKEYS, "C10-RANGE", "key_create returned index %d", (int)k);
+      wl_maybe_yield(wl_mix(P[Q_SEED], 31000 + t * 512 + i), 300);
+      MVH_CHECK(myth_key_delete(k) == 0, "C10-DELETE", "delete of a churner key failed");
+    }
+    wl_maybe_yield(wl_mix(P[Q_SEED], 33000 + t * 512 + i), 500);
+  }
+  return (void *)(t + 1);
 }
 static void *dtor_thread(void *arg) {
   long t = (long)arg;
@@ -298,9 +316,14 @@ static void dtor_run(const long *p, mvsim_runcfg *cfg, mvsim_runstats *st) {
   null_calls = foreign_calls = 0;
   int n = (int)p[D_NTHREADS]; if (n > MAXT) n = MAXT;
   int span = (int)p[D_SPAN]; if (span > NKEYS) span = NKEYS;
+  int nchurn = (int)p[D_CHURN]; if (nchurn < 0) nchurn = 0; if (nchurn > 3) nchurn = 3;
+  if (span > NKEYS - 4) nchurn = 0;      /* leave room: the keys under test must all be creatable */
   wl_begin(cfg, p[Q_NWORKERS], 32, p[Q_QSIZE], (int)p[Q_PFIRST]);
   myth_key_t all[NKEYS];
+  myth_thread_t churn_th[4]; churn_stop = 0;
+  for (long c = 0; c < nchurn; c++) { churn_th[c] = myth_create(churner, (void *)c); YIELD(40 + c); }
   for (int i = 0; i < span; i++) {
+    if (nchurn) YIELD(7700 + i);
     uint64_t h = wl_mix(P[Q_SEED], 500 + i);
     int f = (int)(h % 1000) < P[D_DTOR_PM] ? 1 + (int)((h >> 12) % NDF) : 0;
     int rc = myth_key_create(&all[i], f ? dfs[f - 1] : 0);
@@ -336,6 +359,8 @@ static void dtor_run(const long *p, mvsim_runcfg *cfg, mvsim_runstats *st) {
     for (int s = 0; s < ndkeys; s++)
       MVH_CHECK(dcalls[i][s] == expect_call[i][s], "C11-COUNT", "thread %d (exit mode %d), key index %d: destructor called %d time(s), expected %d", i, m, (int)dkeys[s], dcalls[i][s], expect_call[i][s]);
   }
+  churn_stop = 1;
+  for (int c = 0; c < nchurn; c++) { void *r; myth_join(churn_th[c], &r); }
   for (int i = 0; i < span; i++) if (all[i] >= 0) { myth_setspecific(all[i], 0); myth_key_delete(all[i]); }
   mvh_counter[mvh_counter_id("dtor_null_calls")] += (uint64_t)null_calls;
   mvh_run_flags |= 1;
